@@ -17,6 +17,7 @@ suspends (yield), the Ready edge of must-pend futures, the productive edge of bo
 blocking awaits, the graph must be acyclic — a remaining cycle can repeat inside one poll forever and starve the
 joined parser future; (R6) the yield primitive really yields (sets its flag, wakes, returns Pending first).
 Decides the structural clauses only; wall-clock bounds and completion of user futures are not decided.
+Added after the second seeded round: (R7) no user-code panic can unwind through the scheduler: every user callback call lies in the catch_unwind-guarded future (= C10.R1); (R8) with tracing, a received span-close id marks its entry also when a waiter subscribed first (= C20.R6), else the attempt waits forever.
 """
 DECLINED = ["wall-clock bounds", "that user step/hook futures complete"]
 ASSUMPTIONS = [
